@@ -48,6 +48,9 @@ func runC16(c *Ctx) {
 	s := c.decoderScope("dec")
 	tables := c.runPLYTables("DX")
 	dx := map[string]bool{"Size": tables.casesOK, "Parse": tables.casesOK, "DecodeBinary": tables.casesOK}
+	for _, holder := range tables.switchIn {
+		dx[holder] = tables.casesOK
+	}
 	c.floor("DX.CASES", 3)
 	c.floor("DX.TYPE", 16)
 	c.floor("DX.SIZE", 16)
